@@ -301,7 +301,7 @@ class RandomGen:
             if kind == 'tr':
                 if len(m.tracers) >= 3:
                     return None
-                return ('tr', fresh(), 1 if rng.random() < 0.3 else 0)
+                return ('tr', fresh(), rng.choice([0, 0, 0, 1, 1, 2]))
             if kind == 'rmtr':
                 if not m.tracers:
                     return None
